@@ -108,7 +108,7 @@ func enclosingRange(in ssa.Instruction) (ssa.Value, bool, bool) {
 func C10(c *Ctx) {
 	r := c.R
 	r.Rule("R10.1", "order independence: every byte sequence fed to sha256.Sum256 in FlushDirtyData and getStateJournalAndComputeHash is assembled by appends inside a loop over a key slice that was sorted (sort.Strings) before the loop and is not appended to afterwards; nothing is appended to a hash input inside a map range or sync.Map.Range callback; transaction and receipt leaves are produced by an index-ordered loop over the block's slices.")
-	r.Rule("R10.2", "field coverage: the per-key preimage contains key and value; the per-account preimage contains the address, the marshalled dirty account and the state hash; the predicate selecting hashed keys (!bytes.Equal(orig, value)) is the same predicate that selects keys for the journal and for Commit.")
+	r.Rule("R10.2", "field coverage: the per-key preimage contains key and value, appended for every selected key (no key is skipped inside the hashing loop, a deleted key included); the per-account preimage contains the address, the marshalled dirty account and the state hash; the predicate selecting hashed keys (!bytes.Equal(orig, value)) is the same predicate that selects keys for the journal and for Commit.")
 	r.Rule("R10.3", "injective encoding: a preimage built by concatenating two or more variable-length fields per element without length prefix or delimiter is ambiguous (key||value): different write sets can produce the same root.")
 	r.NotDecided = append(r.NotDecided, "collision resistance; sensitivity as a behavioural fact")
 	r.Rule("R10.5", "the root commits to what the database holds: every Put / Delete that SimpleLedger.Commit issues on the state batch uses a key built by one of the ledger's key constructors (composeStateKey, compositeKey), and for each data kind written (account record, code, storage key) the Put and the Delete use the same constructor; a change that is hashed into the root but written under another key leaves the database behind the root.")
@@ -289,6 +289,13 @@ func C10(c *Ctx) {
 				}
 			}
 			okKV = hasKey && hasVal
+			// every selected key contributes: the appends are executed on every iteration of the hashing loop (a key
+			// skipped because its new value is empty - a deletion - would leave the root blind to which key was deleted)
+			for _, ap := range apps {
+				if core.InLoop(ap) && !unconditionalInLoop(fn, ap) {
+					okKV = false
+				}
+			}
 		}
 		r.Check(okKV, "R10.2", "state hash covers key and value", c.P.Pos(fn.Pos()), "both the key and the dirty value are appended per key", "the per-account state hash does not cover both key and value of every changed key")
 	}
